@@ -35,18 +35,23 @@ pub fn observe(v: f64, accuracy: f32, max_den: u8, max_whole: u32) -> Value {
         }
         Ok(None) => o["obs"] = json!({"kind": "none"}),
         Ok(Some(n)) => {
-            let value = n.value();
+            // value() and Display belong to the code under test too: a panic in them is data
+            let rendered = guarded(|| (n.value(), n.to_string()));
+            let Ok((value, shown)) = rendered else {
+                o["obs"] = json!({"kind": "panic", "sig": panic_signature(&rendered.err().unwrap_or_default())});
+                return o;
+            };
             let exact = value == v || (value - v).abs() <= 4.0 * f64::EPSILON * v.abs();
             match n {
                 Number::Regular(x) => {
                     o["obs"] = json!({"kind": "regular", "exact": x == v, "whole": if x < 2147483648.0 { x.trunc() as i64 } else { -1 },
-                                      "whole_le_max": x.trunc() <= max_whole as f64, "display": n.to_string()});
+                                      "whole_le_max": x.trunc() <= max_whole as f64, "display": shown});
                 }
                 Number::Fraction { whole, num, den, err } => {
                     let within = err.abs() <= (accuracy as f64) * v * (1.0 + 1e-12);
                     o["obs"] = json!({"kind": "fraction", "exact": exact, "errWithin": within && err.is_finite(),
                                       "whole": small(whole), "whole_le_max": whole <= max_whole,
-                                      "num": small(num), "den": small(den), "display": n.to_string()});
+                                      "num": small(num), "den": small(den), "display": shown});
                 }
             }
         }
